@@ -26,7 +26,7 @@ DOM = dict(
     mdelim=['', '$', '\\(', '\\[', '!'],
     inline=[[('$', '$'), ('\\(', '\\)')], [('$', '$')], [('\\(', '\\)')], [('!', '!')]],
     display=[[('$$', '$$'), ('\\[', '\\]')], [('\\[', '\\]')]],
-    groups=[[('{', '}')], [('{', '}'), ('[', ']')], [('{', '}'), ('(', ')')]],
+    groups=[[('{', '}')], [('{', '}'), ('[', ']')], [('{', '}'), ('(', ')')], [('{', '}'), ('[', ']'), ('(', ')')]],
     en_math=[True, False], en_groups=[True, False],
     esc=['\\', '!'], cmt=['%', '#'], forbidden=['', '$'],
 )
